@@ -210,6 +210,9 @@ def real_case(case):
     centers = np.array([[2, 2, 0, 0], [-2, -2, 0, 0], [2, -2, 0, 0]], dtype=float)
     X = np.concatenate([centers[i % 3] + rs.normal(size=(1, d)) * (0.4 if data_id == 0 else 1.0) for i in range(n)])
     kw = dict(n_clusters=3, alpha=alpha, max_iter=4, learning_rate=0.05, batch_size=bs, random_state=seed)
+    if form.startswith("groups"):
+        kw["groups"] = [[0, 1]] if form == "groups_partial" else [[0, 3], [1], [2]]
+        form = "float64"
     if name in ("SparseLinearModel", "SparseMLPModel"):
         kw["gemini"] = gemini
         kw["dynamic"] = dynamic
@@ -286,7 +289,7 @@ def explorers(tier, seed):
                                                     cB.append((name, gemini, alpha, mult, minf, keep, bs, dynamic, pre, restore, data_id, seed))
     for name in M.SPARSE:
         g = "mi" if name == "SparseLinearMI" else "mmd_ova"
-        for form in ("list", "float32", "fortran"):
+        for form in ("list", "float32", "fortran", "groups_partial", "groups_full"):
             cB.append((name, g, 0.2, 2.0, 1, 0.9, None, False, False, True, form, seed))
     return [
         Explorer("scripted_environment", "props.c07", "scripted_case", cA, kind="choices", chunk=1, floor=100, case_timeout=1200,
